@@ -429,3 +429,13 @@ func (db *DB) VerifValueThreshold() int64 { return db.valueThreshold() }
 
 // VerifTxnID gives the harness a stable identity for a transaction passed in hook events.
 func VerifTxnID(t *Txn) string { return fmt.Sprintf("%p", t) }
+
+// VerifSetBlockWrites sets or clears db.blockWrites (what prepareToDrop / Close do), so that a
+// harness can make sendToWriteCh refuse one request with ErrBlockedWrites.
+func (db *DB) VerifSetBlockWrites(block bool) {
+	if block {
+		db.blockWrites.Store(1)
+	} else {
+		db.blockWrites.Store(0)
+	}
+}
